@@ -57,6 +57,34 @@ def _design(ck, wd, name, vals, maxlen, types, coverage=False, timeout=3000):
     return r
 
 
+def _coverage(ck, wd):
+    """Non-vacuity of the design model: every named action of Next labels at least one transition of the
+    state graph (dumped with action labels on a small configuration whose values stay inside the bound).
+    TLC's -coverage statistics are not used: their cost explodes on the recursive fold definitions."""
+    import re
+    cfg = os.path.join(wd, "design_cov.cfg")
+    _design_cfg(cfg, "ValsC", 2, ["double"])
+    dot = os.path.join(wd, "design_cov.dot")
+    r = vc.tlc(SPEC, "VectorOps", cfg, timeout=1800, heap="8g", extra=("-noGenerateSpecTE", "-dump", "dot,actionlabels", dot))
+    ck.add_model("VectorOps/cov", r, "Vals={0,1} MaxLen=2 Types=double (state graph dumped with action labels)")
+    if r.other_error or not r.completed or r.invariant:
+        raise vc.MachineryError("TLC failed on VectorOps/cov: %s %s\n%s" % (r.other_error, r.invariant, r.out[-3000:]))
+    src = open(os.path.join(SPEC, "VectorOps.tla")).read()
+    nxt = src[src.index("Next =="):src.index("Spec ==")]
+    names = set(re.findall(r"\bA[A-Z][A-Za-z0-9]*\b", nxt))
+    graph = open(dot).read()
+    counts = {}
+    for m in re.finditer(r'label="(A[A-Za-z0-9]*)"', graph):
+        counts[m.group(1)] = counts.get(m.group(1), 0) + 1
+    os.remove(dot)
+    untaken = sorted(names - set(counts))
+    ck.untaken += ["VectorOps/cov:" + a for a in untaken]
+    ck.extra["design_actions"] = len(names)
+    ck.extra["design_actions_taken"] = len(names) - len(untaken)
+    if untaken:
+        vc.log("C07: design-model actions never taken: %s" % untaken)
+
+
 def _lemmas(ck, wd, n1, n2, n3, timeout=3000):
     cfg = os.path.join(wd, "lemmas.cfg")
     open(cfg, "w").write("SPECIFICATION Spec\nCONSTANTS\n  Vals <- ValsB\n  N1 = %d\n  N2 = %d\n  N3 = %d\n" % (n1, n2, n3))
@@ -155,7 +183,7 @@ def run(tier, seed):
     else:
         _design(ck, wd, "hist", "ValsB", 2, ["double"], timeout=12000)
         _design(ck, wd, "hist-int", "ValsA", 2, ["int"], timeout=6000)
-    _design(ck, wd, "cov", "ValsA", 1, ["double"], coverage=True)
+    _coverage(ck, wd)
     # 3. implementation traces (plain build with bounds-checked operator[], and ASan + UBSan build)
     exes = [("asan", vc.build_driver("drv_vector", link_lib=False, sanitize=True, extra_flags=DRV_FLAGS)),
             ("plain", vc.build_driver("drv_vector", link_lib=False, extra_flags=DRV_FLAGS))]
